@@ -7,7 +7,7 @@ sys.path.insert(0, V)
 from sim import selftest
 
 def one(item):
-    name, prop, patch = item
+    name, prop, patch = item[:3]
     tmp = tempfile.mkdtemp(prefix="dswmut-")
     try:
         for d in ("dsw", "tests"):
